@@ -8,22 +8,27 @@ from pyvc.driver import Extra
 
 ID = "C14"
 LEVEL = "exploration"
-SIDECARS = ["contracts.rates", "contracts.arch"]
+SIDECARS = ["contracts.rates", "contracts.arch", "contracts.rollup"]
 TARGETS = ["Hardware.get_config", "Hardware.get_frequency", "Component.__init__", "Component.get_num_instances",
-           "MemoryComponent.get_bandwidth", "Architecture.__init__"]
-TECHNIQUE = ("contracts on the rate getters (clock of the Einsum's own configuration, declared bandwidth, declared instance count: SMT) + site contracts on the five time sites (structural, from the AST) + bounded run-time check of the roll-up "
-             "contract on the real Collector.__build_time and of instance counts on the real Architecture/Hardware")
+           "MemoryComponent.get_bandwidth", "Architecture.__init__", "Collector.__build_time"]
+TECHNIQUE = ("contracts (SMT) on Collector.__build_time (sum over blocks in order of 0 / the single component's time / max over "
+             "every component of the block once), on the rate getters and on Architecture.__init__'s instance count + site "
+             "contracts on the five time sites (structural, from the AST) + bounded run-time check of the roll-up VALUE "
+             "on the real Collector.__build_time and of instance counts / divisors on the real Architecture/Hardware")
 EXPLANATION = (
-    "The roll-up postcondition (den(time) = sum over blocks of max over components of the per-Einsum component times, "
-    "every registered component time entering once) needs nested recursive sums and a maximum over the expression "
-    "trees that __build_time assembles through a dictionary, a sort and a leaked loop variable; it was not brought "
-    "within the solvers' reach in this session, so it is decided by a BOUNDED check: the real __build_time on every "
-    "block structure of <= 3 blocks x <= 3 Einsums x <= 3 components (with repetition patterns), its result "
-    "expression tree evaluated under distinct prime component times against an independent roll-up. Rates and "
-    "exactly-once registration at the five sites are structural site contracts over the AST (each `time` assignment "
-    "divides a count by rate * get_num_instances() of the same component that is registered once with "
-    "fusion.add_component in the same block). Instance counts N+1 / 1 are checked on the real parser/Hardware for a "
-    "family of level names. Nothing here is counted as proved beyond the structural obligations.")
+    "Proved (SMT, contracts/rollup.py) on the real Collector.__build_time for every list of blocks: the dump assigns "
+    "metrics['time'] the left-nested sum, in block order, of one block time per fusion block (stated as the recurrence "
+    "total[0] = bt[0], total[b+1] = total[b] + bt[b+1]); each block time is 0 when the block has no component, the "
+    "accumulated time of its only component (the leaked loop variable is shown to be that key), or max(...) with exactly "
+    "one argument per component that has a time in some Einsum of the block, each once, in sorted order; the key set of "
+    "the accumulator is exactly those components (element-wise loop invariants in both directions). What each "
+    "accumulated component time CONTAINS - one term metrics[e][c]['time'] per (Einsum, component) of the block, summed - "
+    "is not part of the SMT statement; it is decided by a BOUNDED check: the real __build_time on every block structure "
+    "of <= 3 blocks x <= 3 Einsums x <= 3 components (with repetition patterns), its result expression tree evaluated "
+    "under distinct prime component times against an independent roll-up. Rates (clock of the Einsum's own "
+    "configuration, declared bandwidth, declared instance count) are proved on the getters; exactly-once registration "
+    "at the five time sites is a structural site contract over the AST; the instance count N + 1 is the per-visit "
+    "lemma of Architecture.__init__ plus bounded level-name / divisor families.")
 TRUSTED = ["Python evaluates '+', '/', max() of the emitted expression as arithmetic (den)",
            "instance count of a component = count of the level that declares it (not multiplied by ancestors)"]
 ASSUMPTIONS = ["bounded: block structures up to 3 x 3 x 3; level names NAME and NAME[0..N] for N <= 12"]
